@@ -339,9 +339,9 @@ def additive(m, n, a, swap, **kw):
 def conds(tier):
     q = tier == "quick"
     cs = []
-    for (k, sub) in ([(1, False), (2, True)] if q else [(1, False), (2, False), (3, True)]):
+    for (k, sub) in ([(1, False), (2, True)] if q else [(1, False), (2, True), (3, True)]):
         nh = 6 if sub else NOPS
-        psub = sub and q
+        psub = sub and (q or k >= 3)
         cs.append(Cond("history-k%d%s" % (k, "s" if sub else ""), "harness.c18:history",
                        [P("h%d" % i, "int", 0, nh) for i in range(1, k + 1)] + [P("p", "int", 0, len(STATEFUL) if psub else NOPS)],
                        fixed={"k": k, "sub": sub, "psub": psub},
